@@ -75,7 +75,7 @@ func checkCase(c Case) fw.Outcome {
 	for _, im := range inl {
 		txt := im.Text()
 		for _, om := range inl {
-			if om == im || om.BelongsTo != "" || !strings.Contains(txt, om.Prefix+":") {
+			if om == im || om.BelongsTo != "" || om.Name == im.BelongsTo || !strings.Contains(txt, om.Prefix+":") {
 				continue
 			}
 			have := false
